@@ -129,6 +129,9 @@ type scripted struct {
 
 func (s *scripted) Name() string { return "scripted" }
 func (s *scripted) ServeDNS(ctx context.Context, ch *middleware.Chain) {
+	if s.r.mode == 'P' {
+		panic("c06: scripted handler panic before the request was decoded")
+	}
 	_, req := ch.Materialize(ctx)
 	if req == nil {
 		return
@@ -281,7 +284,7 @@ func ruleTags(q aQ, r aR, proto string, reply *dns.Msg) string {
 	case q.opt.present && q.opt.ver != 0:
 		t = append(t, "r-badvers")
 	case r.mode == 'n':
-	case r.mode == 'p':
+	case r.mode == 'p' || r.mode == 'P':
 		t = append(t, "r-panic-servfail")
 	default:
 		if sigs && !(q.opt.present && q.opt.do) {
@@ -650,7 +653,7 @@ func exec(op string) vlib.Res {
 		}
 		return vlib.Res{Impl: name, Oracle: or, Tags: "nt,accept"}
 
-	case "srv new", "srv q", "srv raw", "srv stop":
+	case "srv new", "srv q", "srv raw", "srv stop", "srv seed":
 		return execSrv(f)
 	}
 	return vlib.Res{Impl: "bad-op"}
